@@ -461,8 +461,9 @@ def well_formed(cmds):
             need_who.add(t[1])
         if k in ("new", "cnew") and len(t) > 2:
             kinds[t[1]] = t[2]
-            if stall and t[2] == "null" and t[1] != "zz":
-                return False          # (a null pipe cannot answer either: it throws requests to its probe)
+            if stall and t[1] != "zz" and t[2] not in FORWARDERS and t[2] not in STALL_TYPES \
+                    and t[2] not in ("qsrc", "qsink"):
+                return False          # (a pipe that does not hand requests on can never answer a self-holding one)
         if k == "sub":
             kinds[t[1]] = "sub"
         if stall:
@@ -1116,6 +1117,8 @@ PUMP_TYPES = ("buffer", "disblo", "burst", "time_limit", "rate_limit", "sync", "
 # format, clock): released without any path to a sink, nobody can ever answer them and they stay alive by design.
 # Scripts containing one keep every released pipe connected (contract checked by well_formed as well).
 STALL_TYPES = ("tblk", "genaux", "even", "time_limit")
+# pipes built on upipe_helper_output that forward the requests they are given to their output
+FORWARDERS = tuple(t for t in REGISTRY_TYPES if t != "null")
 
 
 def chain_op(rng, a, uid, ubufs, cmds):
@@ -1214,6 +1217,9 @@ def gen_random(rng, info, quick):
         # (upipe_null throws the requests it is given to its probe, which nobody answers: like a sink in mode
         # throw / refuse it can never answer a pipe that keeps itself alive while it waits)
         chosen = [("idem" if t == "null" else t) for t in chosen]
+        # ... and so is every pipe that does not hand requests on to its output (upipe_audio_split and other
+        # pipes whose outputs are sub-pipes): next to a self-holding pipe only the forwarders are used
+        chosen = [(t if t in FORWARDERS or t in STALL_TYPES else "idem") for t in chosen]
     for i in range(npipes):
         t = chosen[i]
         n = "p%d" % i
